@@ -24,6 +24,9 @@ type C18Case struct {
 	Ns      []int   `json:"ns"`      // namespace id of each package (equal ids = same namespace)
 	Style   [][]int `json:"style"`   // spelling of each import path: 0 relative, 1 absolute, 2 ./x/../x, 3 trailing slash
 	Gen     string  `json:"gen"`
+	// Depth: directory nesting of each package below the layout root (0: p<i>, 1: sub/p<i>, 2: sub/deep/p<i>);
+	// relative import paths are relative to the importing package's own directory
+	Depth []int `json:"depth,omitempty"`
 	// Rogue: pairs (i, j): package i refers to a type of package j's namespace without importing j
 	Rogue [][2]int `json:"rogue,omitempty"`
 	// Usable: also generate C++ and Python for the root and check that the C++ types compile and the
@@ -33,12 +36,20 @@ type C18Case struct {
 
 const importLimit = 10 // packaging.MaxImportRecursionDepth; re-stated here, checked against the source by TestC18Limit
 
-const c18Rule = "import graphs: exhaustive (all adjacency matrices on up to 3 packages in quick, 4 in thorough, self-loops included, each with the declared order and a permuted order of every import list) and random (5-14 packages with chains of 8-12 edges around the limit, shortcuts, diamonds, cycles away from the root, two directories declaring one namespace, relative/absolute/redundant path spellings). oracle = reference loader over the abstract graph: reachable cycle or reachable namespace clash or every path to some package has more than 10 edges => error; all paths at most 9 edges and no cycle/clash => exit 0, model.json lists exactly the reachable namespaces once each with exactly their own definitions and cross-namespace references resolve; a package that refers to a namespace neither it nor its imports import must be rejected (all three-package graphs with such a reference, and a fifth of the random ones); for graphs with a shared import (exhaustive part) and one random graph in forty-eight C++ and Python are generated as well and the C++ types must compile and the Python package import (the loaded packages are usable from their importers); verdict and namespace->definitions map invariant under permutation of import lists. non-trivial = graph has a diamond, a cycle not through the root, a clash or a chain of at least 9 edges; distinct = canonical text of the graph"
+const c18Rule = "import graphs: exhaustive (all adjacency matrices on up to 3 packages in quick, 4 in thorough, self-loops included, each with the declared order and a permuted order of every import list) and random (5-14 packages with chains of 8-12 edges around the limit, shortcuts, diamonds, cycles away from the root, two directories declaring one namespace, relative/absolute/redundant path spellings, a third of them with the packages at different directory depths so that the same relative path means different directories for different importers). oracle = reference loader over the abstract graph: reachable cycle or reachable namespace clash or every path to some package has more than 10 edges => error; all paths at most 9 edges and no cycle/clash => exit 0, model.json lists exactly the reachable namespaces once each with exactly their own definitions and cross-namespace references resolve; a package that refers to a namespace neither it nor its imports import must be rejected (all three-package graphs with such a reference, and a fifth of the random ones); for graphs with a shared import (exhaustive part) and one random graph in forty-eight C++ and Python are generated as well and the C++ types must compile and the Python package import (the loaded packages are usable from their importers); verdict and namespace->definitions map invariant under permutation of import lists. non-trivial = graph has a diamond, a cycle not through the root, a clash or a chain of at least 9 edges; distinct = canonical text of the graph"
+
+func (c C18Case) dirOf(i int) string {
+	d := 0
+	if i < len(c.Depth) {
+		d = c.Depth[i]
+	}
+	return []string{"", "sub/", "sub/deep/"}[d%3] + fmt.Sprintf("p%d", i)
+}
 
 func (c C18Case) layout(root string) model.Layout {
 	l := model.Layout{}
 	for i := 0; i < c.N; i++ {
-		dir := fmt.Sprintf("p%d", i)
+		dir := c.dirOf(i)
 		var m strings.Builder
 		fmt.Fprintf(&m, "namespace: N%d\n", c.Ns[i])
 		if len(c.Imports[i]) > 0 {
@@ -49,15 +60,16 @@ func (c C18Case) layout(root string) model.Layout {
 					st = c.Style[i][k]
 				}
 				var p string
+				rel, _ := filepath.Rel(dir, c.dirOf(j))
 				switch st {
 				case 1:
-					p = filepath.Join(root, fmt.Sprintf("p%d", j))
+					p = filepath.Join(root, c.dirOf(j))
 				case 2:
-					p = fmt.Sprintf("./../p%d/../p%d", j, j)
+					p = "./" + rel + fmt.Sprintf("/../p%d", j)
 				case 3:
-					p = fmt.Sprintf("../p%d/", j)
+					p = rel + "/"
 				default:
-					p = fmt.Sprintf("../p%d", j)
+					p = rel
 				}
 				fmt.Fprintf(&m, "  - %s\n", p)
 			}
@@ -536,6 +548,13 @@ func genC18(t *rapid.T) C18Case {
 		}
 		add(a, b)
 	}
+	if rapid.IntRange(0, 2).Draw(t, "nested") == 0 {
+		// packages at different directory depths (the root stays on top): relative import paths differ per importer
+		c.Depth = make([]int, n)
+		for i := 1; i < n; i++ {
+			c.Depth[i] = rapid.IntRange(0, 2).Draw(t, "depth")
+		}
+	}
 	if rapid.IntRange(0, 4).Draw(t, "rogue") == 0 {
 		a := rapid.IntRange(0, n-1).Draw(t, "rogueFrom")
 		b := rapid.IntRange(0, n-1).Draw(t, "rogueTo")
@@ -597,6 +616,11 @@ func TestC18(t *testing.T) {
 			variants := []C18Case{c}
 			if n == 3 {
 				// the same graph with one package referring to a sibling's namespace it may or may not import
+				// ... and with the three packages at three different directory depths
+				nd := c
+				nd.Depth = []int{0, 1, 2}
+				nd.Usable = false
+				variants = append(variants, nd)
 				for _, rg := range [][2]int{{1, 2}, {2, 1}, {0, 2}} {
 					d := c
 					d.Rogue = [][2]int{rg}
@@ -608,6 +632,9 @@ func TestC18(t *testing.T) {
 				if len(c.Rogue) > 0 {
 					rec.Eval()
 					rec.Class("exhaustive:rogue-reference")
+				} else if len(c.Depth) > 0 {
+					rec.Eval()
+					rec.Class("exhaustive:nested-directories")
 				}
 				if f := checkC18(c); f != nil {
 					if f.KnownID != "" && core.Open(f.KnownID) {
